@@ -10,6 +10,7 @@ package main
 // A second binary built with -race serves random concurrent load (search aid for data races).
 
 import (
+	"net"
 	"bufio"
 	"bytes"
 	"context"
@@ -853,6 +854,25 @@ func runC12RaceLoad(cfg *config) *Report {
 	for k := range pools.jsonDocs {
 		env.do(&apiReq{Kind: "c1", CT: "application/json", Body: pools.jsonDocs[k]})
 	}
+	// clients that go away in the middle of an upload: the announced body never arrives in full (the handlers see a
+	// read error part-way), before the load and now and then during it
+	broken := func() {
+		for _, path := range []string{"/v2/files", "/files/create"} {
+			for k := range pools.jsonDocs {
+				body := pools.jsonDocs[k]
+				conn, err := net.Dial("tcp", strings.TrimPrefix(env.srv.URL, "http://"))
+				if err != nil {
+					continue
+				}
+				fmt.Fprintf(conn, "POST %s HTTP/1.1\r\nHost: verif.local\r\nContent-Type: application/json\r\nContent-Length: %d\r\n\r\n", path, len(body))
+				conn.Write(body[:len(body)/2])
+				time.Sleep(5 * time.Millisecond)
+				conn.Close()
+			}
+		}
+	}
+	broken()
+	time.Sleep(50 * time.Millisecond)
 	dur := 4 * time.Second
 	if cfg.tier == "thorough" {
 		dur = 45 * time.Second
@@ -879,6 +899,9 @@ func runC12RaceLoad(cfg *config) *Report {
 				}
 				env.do(q)
 				n++
+				if w == 0 && n%200 == 100 {
+					broken()
+				}
 			}
 			mu.Lock()
 			total += n
